@@ -5,14 +5,15 @@
 
 use crate::common::*;
 use crate::gen::*;
+use nalgebra::point;
 use bemodel::*;
 use serde_json::{json, Value};
 use std::collections::HashSet;
 
 /// a model with every field present and different from every default; 2 elements per collection
 fn full_model(two: bool) -> Model {
-    let mut m = Model {
-        meta: Meta {
+    let mut m = model_with_meta(
+        Meta {
             name: "Proyecto \"ñ\" €".into(),
             is_new_building: false,
             is_dwelling: false,
@@ -21,10 +22,9 @@ fn full_model(two: bool) -> Model {
             global_ventilation_l_s: Some(12.5),
             n50_test_ach: Some(3.25),
             d_perim_insulation: 0.75,
-            rn_perim_insulation: 1.25,
+            rn_perim_insulation: 1.25, ..Default::default()
         },
-        ..Default::default()
-    };
+    );
     let n = if two { 2 } else { 1 };
     for i in 0..n {
         let mut s = space(&format!("s{i}"), SpaceType::UNCONDITIONED, false, 2.75);
@@ -38,25 +38,28 @@ fn full_model(two: bool) -> Model {
         let mut w = wall(&format!("w{i}"), BoundaryType::INTERIOR, uid("wc0"), uid("s0"), Some(uid("s1")), geom(45.5, -120.25, Some([1.5, -2.5, 3.25]), rect(4.5, 2.75)));
         if i == 1 {
             w.bounds = BoundaryType::GROUND;
+            // a closed ring with a repeated corner: every written vertex is a vertex of the model
+            w.geometry.polygon = vec![point![0.0, 0.0], point![4.5, 0.0], point![4.5, 0.0], point![4.5, 2.75], point![0.0, 2.75], point![0.0, 0.0]];
         }
         m.walls.push(w);
         m.windows.push(window(&format!("v{i}"), uid("kc0"), uid("w0"), Some([0.5, 0.75]), 1.25, 1.5, 0.2));
-        m.thermal_bridges.push(ThermalBridge { id: uid(&format!("tb{i}")), name: format!("tb{i}"), kind: ThermalBridgeKind::PILLAR, l: 3.5, psi: 0.15 });
-        m.shades.push(Shade { id: uid(&format!("sh{i}")), name: format!("sh{i}"), geometry: geom(90.0, 15.0, Some([0.5, 0.5, 0.5]), rect(2.0, 1.0)) });
-        m.cons.wallcons.push(WallCons { id: uid(&format!("wc{i}")), name: format!("wc{i}"), layers: vec![Layer { material: uid("m0"), e: 0.125 }, Layer { material: uid("m1"), e: 0.02 }], absorptance: 0.45 });
+        m.thermal_bridges.push(ThermalBridge { id: uid(&format!("tb{i}")), name: format!("tb{i}"), kind: ThermalBridgeKind::PILLAR, l: 3.5, psi: 0.15, ..Default::default() });
+        m.shades.push(Shade { id: uid(&format!("sh{i}")), name: format!("sh{i}"), geometry: geom(90.0, 15.0, Some([0.5, 0.5, 0.5]), if i == 1 { vec![point![0.0, 0.0], point![2.0, 0.0], point![2.0, 1.0], point![2.0, 1.0], point![0.0, 1.0]] } else { rect(2.0, 1.0) }), ..Default::default() });
+        // (the second construction repeats a layer, the second yearly / weekly schedule repeats an entry: equal neighbours in a list are still two elements)
+        m.cons.wallcons.push(WallCons { id: uid(&format!("wc{i}")), name: format!("wc{i}"), layers: if i == 1 { vec![Layer { material: uid("m0"), e: 0.125 }, Layer { material: uid("m0"), e: 0.125 }, Layer { material: uid("m1"), e: 0.02 }] } else { vec![Layer { material: uid("m0"), e: 0.125 }, Layer { material: uid("m1"), e: 0.02 }] }, absorptance: 0.45, ..Default::default() });
         m.cons.wincons.push(wincons(&format!("kc{i}"), uid("g0"), uid("f0"), 0.35, 12.5, Some(0.25), 9.5));
         m.cons.glasses.push(glass(&format!("g{i}"), 1.25, 0.55));
-        m.cons.frames.push(Frame { id: uid(&format!("f{i}")), name: format!("f{i}"), u_value: 2.25, absorptivity: 0.35 });
-        m.schedules.year.push(Schedule { id: uid(&format!("y{i}")), name: format!("y{i}"), values: vec![(uid("k0"), 200), (uid("k1"), 165)] });
-        m.schedules.week.push(ScheduleWeek { id: uid(&format!("k{i}")), name: format!("k{i}"), values: vec![(uid("d0"), 5), (uid("d1"), 2)] });
-        m.schedules.day.push(ScheduleDay { id: uid(&format!("d{i}")), name: format!("d{i}"), values: vec![0.25, 0.5] });
-        m.loads.push(SpaceLoads { id: uid(&format!("l{i}")), name: format!("l{i}"), area_per_person: 12.5, people_schedule: Some(uid("y0")), people_sensible: 6.25, people_latent: 3.75, equipment: 4.5, equipment_schedule: Some(uid("y1")), lighting: 7.5, lighting_schedule: Some(uid("y0")) });
-        m.thermostats.push(Thermostat { id: uid(&format!("t{i}")), name: format!("t{i}"), temp_max: Some(uid("y0")), temp_min: Some(uid("y1")) });
-        m.overrides.walls.insert(uid(&format!("w{i}")), WallPropsOverrides { u_value: Some(0.35) });
-        m.overrides.windows.insert(uid(&format!("v{i}")), WinPropsOverrides { u_value: Some(1.75), f_shobst: Some(0.65) });
+        m.cons.frames.push(Frame { id: uid(&format!("f{i}")), name: format!("f{i}"), u_value: 2.25, absorptivity: 0.35, ..Default::default() });
+        m.schedules.year.push(Schedule { id: uid(&format!("y{i}")), name: format!("y{i}"), values: if i == 1 { vec![(uid("k0"), 100), (uid("k0"), 100), (uid("k1"), 165)] } else { vec![(uid("k0"), 200), (uid("k1"), 165)] }, ..Default::default() });
+        m.schedules.week.push(ScheduleWeek { id: uid(&format!("k{i}")), name: format!("k{i}"), values: if i == 1 { vec![(uid("d0"), 2), (uid("d0"), 2), (uid("d1"), 3)] } else { vec![(uid("d0"), 5), (uid("d1"), 2)] }, ..Default::default() });
+        m.schedules.day.push(ScheduleDay { id: uid(&format!("d{i}")), name: format!("d{i}"), values: vec![0.25, 0.5], ..Default::default() });
+        m.loads.push(SpaceLoads { id: uid(&format!("l{i}")), name: format!("l{i}"), area_per_person: 12.5, people_schedule: Some(uid("y0")), people_sensible: 6.25, people_latent: 3.75, equipment: 4.5, equipment_schedule: Some(uid("y1")), lighting: 7.5, lighting_schedule: Some(uid("y0")), ..Default::default() });
+        m.thermostats.push(Thermostat { id: uid(&format!("t{i}")), name: format!("t{i}"), temp_max: Some(uid("y0")), temp_min: Some(uid("y1")), ..Default::default() });
+        m.overrides.walls.insert(uid(&format!("w{i}")), WallPropsOverrides { u_value: Some(0.35), ..Default::default() });
+        m.overrides.windows.insert(uid(&format!("v{i}")), WinPropsOverrides { u_value: Some(1.75), f_shobst: Some(0.65), ..Default::default() });
     }
-    m.cons.materials.push(Material { id: uid("m0"), name: "m0".into(), properties: MatProps::Detailed { conductivity: 0.045, density: 35.5, specific_heat: 1450.0, vapour_diff: Some(60.5) } });
-    m.cons.materials.push(Material { id: uid("m1"), name: "m1".into(), properties: MatProps::Resistance { resistance: 0.185, vapour_diff: Some(1.5) } });
+    m.cons.materials.push(Material { id: uid("m0"), name: "m0".into(), properties: MatProps::Detailed { conductivity: 0.045, density: 35.5, specific_heat: 1450.0, vapour_diff: Some(60.5) }, ..Default::default() });
+    m.cons.materials.push(Material { id: uid("m1"), name: "m1".into(), properties: MatProps::Resistance { resistance: 0.185, vapour_diff: Some(1.5) }, ..Default::default() });
     m.extra = Some(vec![ExtraData { name: "w0".into(), bounds: BoundaryType::ADIABATIC, spacetype: SpaceType::UNINHABITED, nextspace: Some(uid("s1")), nextspacetype: Some(SpaceType::UNCONDITIONED), tilt: Tilt::BOTTOM, cons: uid("wc0"), u: 0.35, computed_u: 0.45 }]);
     m
 }
@@ -399,7 +402,7 @@ pub fn run(ctx: &Ctx) -> i32 {
         }
         a.n += 1;
         // (i) plain field: ThermalBridge.psi / Glass.u_value
-        let g = Glass { id: Uuid::nil(), name: String::new(), u_value: x, g_gln: x };
+        let g = Glass { id: Uuid::nil(), name: String::new(), u_value: x, g_gln: x, ..Default::default() };
         let j = serde_json::to_string(&g).unwrap();
         let g2: Glass = match serde_json::from_str(&j) {
             Ok(g) => g,
@@ -413,7 +416,7 @@ pub fn run(ctx: &Ctx) -> i32 {
         }
         // (ii) flatten + untagged: Material.conductivity / resistance
         for variant in 0..2 {
-            let mat = Material { id: Uuid::nil(), name: String::new(), properties: if variant == 0 { MatProps::Detailed { conductivity: x, density: x, specific_heat: 1000.0, vapour_diff: Some(x) } } else { MatProps::Resistance { resistance: x, vapour_diff: None } } };
+            let mat = Material { id: Uuid::nil(), name: String::new(), properties: if variant == 0 { MatProps::Detailed { conductivity: x, density: x, specific_heat: 1000.0, vapour_diff: Some(x) } } else { MatProps::Resistance { resistance: x, vapour_diff: None } }, ..Default::default() };
             let j = serde_json::to_string(&mat).unwrap();
             match serde_json::from_str::<Material>(&j) {
                 Ok(m2) => {
